@@ -119,23 +119,29 @@ def obligations(tier, seed):
     for n, idx in ((1, None), (2, None), (1, 0), (2, 0), (2, 1), (3, 2), (5, 4)) if tier == 'quick' else ((1, None), (2, None), (3, None), (1, 0), (2, 0), (2, 1), (3, 0), (3, 2), (4, 1), (5, 4), (6, 3), (8, 7)):
         for sig in (0, 1):
             obs.append(dict(name='tap-tx/n%d/%s/sig%d' % (n, 'keypath' if idx is None else 'index%d' % idx, sig), kind='taptx', n=n, idx=idx, parity=2 + (n & 1), symleaves=[idx] if idx is not None else [], sig=sig, cost=n))
+    # the spent taproot output is not the first output of the funding transaction (seed C06-3)
+    for n, idx in ((1, None), (2, 1), (1, 0)):
+        for fv in (1, 2): obs.append(dict(name='tap-tx/n%d/%s/sig0/funding-vout%d' % (n, 'keypath' if idx is None else 'index%d' % idx, fv), kind='taptx', n=n, idx=idx, parity=2, symleaves=[idx] if idx is not None else [], sig=0, fvout=fv, cost=n))
     for n, idx in ((1, 0), (2, 1), (3, 1)):
         for sig in (0, 1): obs.append(dict(name='tap-tx/n%d/index%d/sig%d/two-spend-args' % (n, idx, sig), kind='taptx', n=n, idx=idx, parity=3 - (n & 1), symleaves=[idx], sig=sig, spendargs=[[0x07], [0x01, 0x02, 0x03]], cost=n))
     for slen in (253,) if tier == 'quick' else (29, 252, 253, 254): obs.append(dict(name='tap-tx/n2/index1/sig1/leaf%dbytes' % slen, kind='taptx', n=2, idx=1, parity=2, symleaves=[1], sig=1, slen=slen, cost=3))
     return obs
 
 SIG64 = [(5 * i + 1) & 0xff for i in range(64)]
+OTHER_SPK = [0x51, 0x20] + [(91 * i + 5) & 0xff for i in range(32)]          # another taproot output in the funding transaction
 PROGRAM = [(37 * i + 11) & 0xff for i in range(32)]          # the opaque tweaked key of the tweak_add stub: the funding output pays to it
-def tap_txs(V=None):
+def tap_txs(V=None, fvout=0):
     """concrete funding / spending transaction pair (the fields the digest signs over are made symbolic after parsing) and the symbolic field bytes"""
     import hashlib
     sym = V is None
     def var(nm): return z3.BitVec(nm, 8) if sym else V.get(nm, 0)
-    f_full, f_stripped = C03.ser_tx([2, 0, 0, 0], [([0x11] * 32, [0, 0, 0, 0], [], [0xff] * 4, None)], [((100000).to_bytes(8, 'little'), [0x51, 0x20] + PROGRAM)], [0, 0, 0, 0])
+    f_outs = [((100000).to_bytes(8, 'little'), [0x51, 0x20] + PROGRAM)]
+    for k in range(fvout): f_outs.insert(0, ((70000 + k).to_bytes(8, 'little'), OTHER_SPK))          # outputs in front of the spent one
+    f_full, f_stripped = C03.ser_tx([2, 0, 0, 0], [([0x11] * 32, [0, 0, 0, 0], [], [0xff] * 4, None)], f_outs, [0, 0, 0, 0])
     txid = list(hashlib.sha256(hashlib.sha256(bytes(f_stripped)).digest()).digest())
     out_spk = [0x00, 0x14] + [0x22] * 20
-    s_full, _ = C03.ser_tx([2, 0, 0, 0], [(txid, [0, 0, 0, 0], [], [0xfe, 0xff, 0xff, 0xff], None)], [((90000).to_bytes(8, 'little'), out_spk)], [0, 0, 0, 0])
-    fields = dict(ver=[var('ver%d' % i) for i in range(4)], lock=[var('lock%d' % i) for i in range(4)], seq=[var('seq%d' % i) for i in range(4)], oval=[var('oval%d' % i) for i in range(8)], amount=[var('amt%d' % i) for i in range(8)])
+    s_full, _ = C03.ser_tx([2, 0, 0, 0], [(txid, list(fvout.to_bytes(4, 'little')), [], [0xfe, 0xff, 0xff, 0xff], None)], [((90000).to_bytes(8, 'little'), out_spk)], [0, 0, 0, 0])
+    fields = dict(amount2=[var('amu%d' % i) for i in range(8)], ver=[var('ver%d' % i) for i in range(4)], lock=[var('lock%d' % i) for i in range(4)], seq=[var('seq%d' % i) for i in range(4)], oval=[var('oval%d' % i) for i in range(8)], amount=[var('amt%d' % i) for i in range(8)])
     return f_full, s_full, txid, out_spk, fields
 
 def leaf_len(ob, i): return ob.get('slen', 3) if i == ob.get('idx') or (ob.get('idx') is None and i == 0) else 3
@@ -156,7 +162,7 @@ def argv_for(ob, V=None):
     if ob['idx'] is not None: args.append(list(str(ob['idx']).encode()))
     for a in ob.get('spendargs', []): args.append(list(b'0x') + C07.to_hex(a))
     if ob.get('kind') == 'taptx':
-        f_full, s_full, txid, out_spk, fields = tap_txs(V)
+        f_full, s_full, txid, out_spk, fields = tap_txs(V, ob.get('fvout', 0))
         opts = [list(b'--tx=') + C07.to_hex(s_full), list(b'--txin=') + C07.to_hex(f_full)]
         if ob['sig']: opts.append(list(b'--sig=') + C07.to_hex(SIG64))
         args = [args[0]] + opts + args[1:]
@@ -251,7 +257,7 @@ def check_taptx(E, f, ob, key, scripts):
     """--tx/--txin: the printed transaction is the given one with witness [sig, (script, control block)], and the reported sighash is the
     BIP341 (key path) / BIP342 (script path) digest of that printed transaction for hash type 0x00"""
     out1 = f.aux.get('out1', []); out2 = f.aux.get('out2', [])
-    f_full, s_full, txid, out_spk, F = tap_txs()
+    f_full, s_full, txid, out_spk, F = tap_txs(None, ob.get('fvout', 0))
     txb = logged_bytes(f, between(out1, b'Resulting transaction: '))
     sh = logged_bytes(f, between(out2, b'sighash (little endian) = '))
     if txb is None: return True, 'no resulting transaction printed'
@@ -265,7 +271,7 @@ def check_taptx(E, f, ob, key, scripts):
         script = full_script(ob, ob['idx'], scripts[ob['idx']])
         wit += [list(a) for a in ob.get('spendargs', [])] + [script, ctl]
         leaf = hashref.tagged(b'TapLeaf', [0xc0] + hashref.compact_size(len(script)) + script)
-    ins = [(txid, [0, 0, 0, 0], [], F['seq'], wit)]; outs = [(F['oval'], out_spk)]
+    ins = [(txid, list(ob.get('fvout', 0).to_bytes(4, 'little')), [], F['seq'], wit)]; outs = [(F['oval'], out_spk)]
     want_tx, _ = C03.ser_tx(F['ver'], ins, outs, F['lock'])
     bad = []
     d = refexec.differs(txb, want_tx)
@@ -290,10 +296,10 @@ def run(E, ob):
     args, key, scripts = argv_for(ob)
     st = E.new_state(); st.aux['tty'] = (1, 1, 1); st.aux['parity_in'] = ob.get('parity', 2); st.aux['symleaves'] = ob.get('symleaves')
     if ob['kind'] == 'taptx':
-        f_full, s_full, txid, out_spk, fields = tap_txs()
+        f_full, s_full, txid, out_spk, fields = tap_txs(None, ob.get('fvout', 0))
         st.aux['tapsym'] = True
         ga = E.gaddr_of(st, '@verif_tap_sym')
-        for i, b in enumerate(fields['ver'] + fields['lock'] + fields['seq'] + fields['oval'] + fields['amount']): E.store(st, ga + i, 1, b)
+        for i, b in enumerate(fields['ver'] + fields['lock'] + fields['seq'] + fields['oval'] + fields['amount'] + fields['amount2']): E.store(st, ga + i, 1, b)
         inputs = None
     argc, av = procenv.make_argv(E, st, args)
     E.call(st, '@w_tap_main', [argc, av])
@@ -409,10 +415,12 @@ def native_taptx(exe, key, scripts, idx, F, sig, ob=None):
     mk = re.search(r'Tweaked pubkey = ([0-9a-f]{64})', (out + err).decode('latin1'))
     if not mk: return None, 'tap without transactions failed: %s' % (out + err)[-300:]
     PROGRAM = list(bytes.fromhex(mk.group(1)))
-    f_full, f_stripped = C03.ser_tx([2, 0, 0, 0], [([0x11] * 32, [0, 0, 0, 0], [], [0xff] * 4, None)], [(F['amount'], [0x51, 0x20] + PROGRAM)], [0, 0, 0, 0])
+    fv = (ob or {}).get('fvout', 0)
+    f_outs = [(F.get('amount2', [0] * 8), OTHER_SPK)] * fv + [(F['amount'], [0x51, 0x20] + PROGRAM)]
+    f_full, f_stripped = C03.ser_tx([2, 0, 0, 0], [([0x11] * 32, [0, 0, 0, 0], [], [0xff] * 4, None)], f_outs, [0, 0, 0, 0])
     txid = list(hashlib.sha256(hashlib.sha256(bytes(f_stripped)).digest()).digest())
     out_spk = [0x00, 0x14] + [0x22] * 20
-    s_full, _ = C03.ser_tx(F['ver'], [(txid, [0, 0, 0, 0], [], F['seq'], None)], [(F['oval'], out_spk)], F['lock'])
+    s_full, _ = C03.ser_tx(F['ver'], [(txid, list(fv.to_bytes(4, 'little')), [], F['seq'], None)], [(F['oval'], out_spk)], F['lock'])
     cmd = [exe, '--tx=' + bytes(s_full).hex(), '--txin=' + bytes(f_full).hex()] + (['--sig=' + bytes(SIG64).hex()] if sig else [])
     cmd += [bytes(key).hex(), str(len(scripts))] + script_args(ob, scripts) + ([str(idx)] if idx is not None else []) + ['0x' + bytes(a).hex() for a in (ob or {}).get('spendargs', [])]
     rc, out, err = runtool.run(cmd, stdin_tty=True, stdout_tty=True)
@@ -423,7 +431,7 @@ def native_taptx(exe, key, scripts, idx, F, sig, ob=None):
     if idx is not None:
         script = full_script(ob or {}, idx, list(scripts[idx])); wit += [list(a) for a in (ob or {}).get('spendargs', [])] + [script, list(bytes.fromhex(mc.group(1)))]
         leaf = hashref.tagged(b'TapLeaf', [0xc0] + hashref.compact_size(len(script)) + script)
-    ins = [(txid, [0, 0, 0, 0], [], F['seq'], wit)]; outs = [(F['oval'], out_spk)]
+    ins = [(txid, list(fv.to_bytes(4, 'little')), [], F['seq'], wit)]; outs = [(F['oval'], out_spk)]
     want_tx, _ = C03.ser_tx(F['ver'], ins, outs, F['lock'])
     class Ctx:
         def branch(s, c): c = z3.simplify(c) if is_sym(c) else c; return c is True or (c is not False and z3.is_true(c))
@@ -463,9 +471,10 @@ def validate(E, lib):
             if r is None or r['address'] != base['address'] or not r.get('proof_ok'): raise NativeViolation('C06:native-proof', 'real tap: output does not verify under BIP341 (key %s, scripts %s, index %d): %r' % (key.hex(), scripts, i, r), dict(key=list(key), scripts=scripts, idx=i))
             n += 1
     F = dict(ver=[1, 0, 0, 0], lock=[0x10, 0x27, 0, 0], seq=[0xfd, 0xff, 0xff, 0xff], oval=list((12345).to_bytes(8, 'little')), amount=list((54321).to_bytes(8, 'little')))
-    for (cnt, idx, sig) in ((1, None, 0), (2, 1, 0), (3, 2, 1), (3, None, 1)):
+    F['amount2'] = list((777).to_bytes(8, 'little'))
+    for (cnt, idx, sig, fv) in ((1, None, 0, 0), (2, 1, 0, 0), (3, 2, 1, 0), (3, None, 1, 0), (1, None, 0, 1), (2, 0, 0, 2)):
         scripts = [[rnd.randrange(256), rnd.randrange(256)] for _ in range(cnt)]
-        r, txt = native_taptx(exe, key, scripts, idx, F, sig)
+        r, txt = native_taptx(exe, key, scripts, idx, F, sig, dict(fvout=fv))
         if r is None or not r['tx_ok'] or not r['sighash_ok']: raise NativeViolation('C06:native-sighash', 'real tap --tx/--txin: printed transaction / reported sighash do not match the BIP341 reference (scripts %s, index %s, sig %d): %r' % (scripts, idx, sig, r), dict(key=list(key), scripts=scripts, idx=idx, fields=F, sig=sig))
         n += 1
     return n
